@@ -103,6 +103,17 @@ check('C11', 'proof',
       'Trusted: Coq kernel, extraction + driver, translators/harness; importlib and packaging.version are modelled (directory exists <=> importable; numeric release comparison), str slicing is modelled on ASCII prefixes.',
       'Coq proof of the selection model + generated inventory instance theorems + differential run', 'DESIGN.md §6 C11')
 
+check('C10', 'proof',
+      'The quantifier is finite and is enumerated completely: a table of ALL bundled version directories x ALL subscriptions their controllers register '
+      '(recorded by really constructing each controller) x the arguments the SAME version declares for the target (computed by the extracted model from '
+      'the raw definition files) is regenerated from the working tree on every run, and the instance theorem "every inconsistent (version, key) pair is a '
+      'listed finding" is proved over it by vm_compute; static Coq theorems give its meaning (a version with no failing pair is fully consistent) and '
+      'characterise the CPython binding model (too many positionals / unknown keyword / missing required parameter are rejected, the declared shape is '
+      'accepted). The binding model is cross-checked against inspect.signature(...).bind on every pair. The dynamic clause (a minimal battle per version '
+      'parses in strict mode) is exercised by the synthetic battles of the C09 check.',
+      'Trusted: Coq kernel (vm_compute for the instance theorem), translator gen_versions (imports every version module, inspect.signature), harness; importlib and CPython call binding are modelled.',
+      'exhaustive generated instance theorem (vm_compute) + Coq binding model + cross-check with inspect', 'DESIGN.md §6 C10')
+
 NOT_YET = {}
 ALL = ['C%02d' % i for i in range(1, 20)]
 def main():
